@@ -95,6 +95,13 @@ def compare(stream: bytes, cls: str, limits: dict | None = None) -> dict:
         if len(got) > k:
             # the defective message itself was delivered before the error (e.g. defect in the body): head must still match
             pass
+    elif what == "te10":
+        # the last reference message is an HTTP/1.0 request with Transfer-Encoding: chunked: reject it, or deliver it with the
+        # chunked-decoded body - never as a body-less request followed by requests parsed out of its chunk framing
+        if len(got) >= k:
+            pass  # msg_equal(k - 1) above has compared method, target, fields and the decoded body
+        elif out.error is None:
+            raise Violation(f"message-count/{cls}", f"HTTP/1.0 chunked request: aiohttp delivered {len(got)} messages and no error; the reading has {k}")
     else:  # dontcare
         if len(got) > k + 1:
             pass
@@ -136,6 +143,34 @@ def unit_classes(rec: Rec, n: int, offset: int, classes: list) -> None:
         hyp.run(rec, cases("mutated", c), body, n, seed_offset=offset + k, max_root_causes=3)
 
 
+def te10_streams() -> list[dict]:
+    """HTTP/1.0 (and 0.9-style versions) requests that carry Transfer-Encoding: chunked - every combination of a small grid."""
+    out = []
+    bodies = [b"5\r\nhello\r\n0\r\n\r\n", b"0\r\n\r\n", b"DEAD /smuggled HTTP/1.1\r\nHost: evil\r\n\r\n",
+              b"1c\r\nGET /inner HTTP/1.1\r\nHost: a\r\n\r\n\r\n0\r\n\r\n", b"3;x=y\r\nabc\r\n0\r\nT: v\r\n\r\n"]
+    for version in (b"HTTP/1.0", b"HTTP/1.1"):
+        for conn in (b"", b"Connection: keep-alive\r\n", b"Connection: close\r\n"):
+            for te in (b"chunked", b"Chunked", b"gzip, chunked"):
+                for host in (b"Host: a\r\n", b""):
+                    for bd in bodies:
+                        for follow in (b"", b"GET /next HTTP/1.1\r\nHost: a\r\n\r\n"):
+                            stream = b"POST /u " + version + b"\r\n" + host + conn + b"Transfer-Encoding: " + te + b"\r\n\r\n" + bd + follow
+                            out.append({"stream": stream, "cls": "te10" if version == b"HTTP/1.0" else "te11-grid"})
+    return out
+
+
+def unit_te10(rec: Rec) -> None:
+    for case in te10_streams():
+        try:
+            body(rec, case)
+        except Violation as v:
+            if v.key in rec.muted:
+                continue
+            rec.fail(v.key, v.msg, case)
+            rec.muted.add(v.key)
+    rec.exhaustive = True
+
+
 def units(tier: str, seed: int) -> list[Unit]:
     n = 700 if tier == "quick" else 15000
     us = []
@@ -147,6 +182,7 @@ def units(tier: str, seed: int) -> list[Unit]:
     per = 220 if tier == "quick" else 4000
     for i in range(0, len(names), 2):
         us.append(Unit(f"classes-{names[i]}", unit_classes, {"n": per, "offset": 100 + i * 5, "classes": names[i:i + 2]}))
+    us.append(Unit("te10-grid", unit_te10, {}))
     return us
 
 
